@@ -138,6 +138,19 @@ CHECKS.update({
             "DESIGN.md section 4 C16"),
 })
 
+CHECKS.update({
+    "C12": ("Hypothesis PBT: circuits generated through every template family with normalised parameterisations x "
+            "flags x semiring x value profiles x optimiser steps; oracle = partition function of the numpy reference "
+            "and of the compiled circuit equals one, non-negativity, finiteness in log space, brute-force sums",
+            "Exploration: template-built circuits (region graphs, image / tabular data, HMM, fully factorised, CP / "
+            "Tucker with softmax) are checked to integrate to one by four routes (reference input-wise marginal, "
+            "compiled symbolic integrate or IntegrateQuery, brute-force sum of compiled outputs, value agreement with "
+            "the reference) for arbitrary unconstrained parameter values and after SGD/Adam steps; <= 12 variables.",
+            "Trusted: vlib/ref.py closed-form input integrals; smoothness/decomposability of the templates (validated "
+            "independently by C16).",
+            "DESIGN.md section 4 C12"),
+})
+
 NOT_APPLICABLE = {}
 
 
